@@ -217,6 +217,12 @@ def _viol(res, info, kind, mdl, c, desc):
     ok, detail = replay(rep)
     res["disagreements_checked"] += 1
     cpu = info["cpu"].replace("amoco.arch.", "")
+    if not ok and mdl is not None:
+        # the two translations differ (a sign annotation on a node changed) but the real evaluation of the old and the
+        # rebuilt map on the distinguishing state gives the same constants: the statement is about evaluation, so this
+        # is not a violation (the annotation is not observed); counted
+        res["symbolic_only_differences"] = res.get("symbolic_only_differences", 0) + 1
+        return
     res["violations"].append({"key": "%s:%s:%s:%s" % (cpu, kind, info.get("loc", "-"), info["mns"]),
                               "desc": "%s | %s block %s | replay (fresh interpreter): %s" % (desc, info["cpu"], info["mns"], detail), "replay": rep, "reproduced": ok})
 
@@ -341,6 +347,7 @@ def coverage(agg, tier):
         "discharged": agg.get("discharged", 0),
         "top_results_admitted": agg.get("top_results", 0),
         "untranslatable": agg.get("untranslatable", 0),
+        "symbolic_only_differences_not_observable_by_evaluation": agg.get("symbolic_only_differences", 0),
         "solver_s": round(agg.get("solver_s", 0.0), 1),
         "rule": "program = (cpu module, mode, block B, history H); obligation = one location of the map of B: the term translated before H equals, for all states, the term translated from the same object after H, and the term of the map rebuilt after H",
         "bounds": {"experiments": "per cpu module and mode (quick 12 | thorough 150): block of 1..3 instructions, history of (3 | 5) other sequences of 1..3 instructions, each symbolically executed, applied to concrete boundary states, executed stepwise on a concrete state, composed with the block's map, printed, simplified",
